@@ -115,6 +115,7 @@ def cel_compiles(res):
 
 def check(res):
     cel_compiles(res)
+    kf.lowercase_collision(res, "C08", known_findings("C08"))
     corpus = corpora.c08(res.seed, res.tier)
     cl = kf.make_classifier(res, "C08", known_findings("C08"))
     genprop.run(res, "C08", PROPFILE, corpus, classify=cl, pre_build=write_asserts, spec=False,
